@@ -141,6 +141,27 @@ func c01ExtraSpecs(c *core.Check, rng *rand.Rand) ([]*aspec.ASpec, []string) {
 		add("wireop:fixed@aliasResponseInlineObjectBody", a)
 	}
 	{
+		// primitive components whose names carry initialism-like tails, and components that are nothing but a $ref
+		// to them, used where values are parsed and formatted (names are built at several sites: they must agree)
+		for vi, base := range []string{"UserId", "OrderIds", "userid", "ApiURL", "HTTPCode", "X2y", "Id"} {
+			a, op := mk()
+			kind := []string{"string", "int64", "string", "string", "int32", "double", "string"}[vi]
+			a.Schemas = []aspec.NamedSchema{{Name: base, Schema: aspec.Schema{K: kind}}, {Name: "Alias" + base, Schema: aspec.Schema{K: "ref", To: base}},
+				{Name: "AliasOfAlias" + base, Schema: aspec.Schema{K: "ref", To: "Alias" + base}}}
+			refTo := func(n string) aspec.Schema { return aspec.Schema{K: "ref", To: n} }
+			op.Params = append(op.Params, aspec.Param{In: "query", Name: "direct", Schema: refTo(base)}, aspec.Param{In: "query", Name: "via", Req: true, Schema: refTo("Alias" + base)},
+				aspec.Param{In: "header", Name: "X-Via", Schema: refTo("AliasOfAlias" + base)})
+			// (not as object properties: a $ref to a primitive component there is the open finding c01-ref-nonstruct)
+			op.Responses = []aspec.RespRef{{Status: "200", R: &aspec.Response{Desc: "ok", Headers: []aspec.Header{{Name: "X-Direct", Schema: refTo(base)}, {Name: "X-Alias", Req: true, Schema: refTo("Alias" + base)}},
+				Body: aspec.Body{K: "none"}}}}
+			t2 := []aspec.Seg{{K: "lit", S: "by"}, {K: "var", S: "key"}}
+			o2 := simpleOp("GET", t2)
+			o2.Params = []aspec.Param{{In: "path", Name: "key", Req: true, Schema: refTo("Alias" + base)}}
+			a.Paths = append(a.Paths, aspec.PathItem{Template: t2, Ops: []aspec.Op{o2}})
+			add(fmt.Sprintf("config:primitive-component-%s-and-aliases", base), a)
+		}
+	}
+	{
 		// one operation documents a component response and things that resolve to the same component under other
 		// statuses: an alias of it, an alias of the alias, the component itself twice (refused today: fine, as long
 		// as it is refused cleanly or what comes out compiles)
